@@ -247,24 +247,24 @@ def c02_defaults():
     return out
 
 
-def compile_probes(pid, cases):
+def compile_probes(pid, cases, pkg="vx-replay-dflt", sub="dflt"):
     """compile-time facts about what the derive emits, decided by rustc: one bin target of /verif/replay-exec/dflt per case, whose source
     states the expectation as trait-bound assertions; a case that does not compile is a violation with the compiler's first error"""
     import vxreplay
     out = []
-    d = os.path.join(vxreplay.EXEC_DIR, "dflt")
+    d = os.path.join(vxreplay.EXEC_DIR, sub)
     env = dict(os.environ, CARGO_NET_OFFLINE="true", CARGO_TARGET_DIR=vxreplay.EXEC_TARGET)
     for case in cases:
         src = open(os.path.join(d, "src", "bin", case + ".rs")).read()
         what = src.splitlines()[0].lstrip("/ ").strip()
         r = {"obligation": "%s.compile.%s.bounded" % (pid, case), "status": "ok", "bounded": True, "cases": 1,
-             "engine": "rustc (cargo check) on a consumer crate built against /repo's working tree", "what": what, "bound": "this one derive (replay-exec/dflt/src/bin/%s.rs)" % case,
-             "trusted": [], "cmd": "cargo check --offline -p vx-replay-dflt --bin %s (in /verif/replay-exec)" % case}
+             "engine": "rustc (cargo check) on a consumer crate built against /repo's working tree", "what": what, "bound": "this one derive (replay-exec/%s/src/bin/%s.rs)" % (sub, case),
+             "trusted": [], "cmd": "cargo check --offline -p %s --bin %s (in /verif/replay-exec)" % (pkg, case)}
         os.utime(os.path.join(d, "src", "bin", case + ".rs"), None)
-        p = subprocess.run(["cargo", "check", "--offline", "-p", "vx-replay-dflt", "--bin", case], cwd=vxreplay.EXEC_DIR, env=env, capture_output=True, text=True)
+        p = subprocess.run(["cargo", "check", "--offline", "-p", pkg, "--bin", case], cwd=vxreplay.EXEC_DIR, env=env, capture_output=True, text=True)
         if p.returncode != 0:
             errs = [l for l in p.stderr.splitlines() if l.startswith("error")]
-            if not errs or not any("vx-replay-dflt" in l for l in p.stderr.splitlines()):
+            if not errs or not any(pkg in l for l in p.stderr.splitlines()):
                 r["status"] = "undecided"
                 r["detail"] = "the probe crate could not be built: " + p.stderr[-300:]
             else:
@@ -272,8 +272,8 @@ def compile_probes(pid, cases):
                 attr = re.search(r"#\[graphql\(([^\]]*)\)\]", src)
                 r["status"] = "fail"
                 r["detail"] = "%s: the consumer does not compile: %s" % (what, first)
-                r["witness"] = {"case": {"derive_attribute": attr.group(1) if attr else "", "source": "replay-exec/dflt/src/bin/%s.rs" % case}, "observed": r["detail"], "bounded": True,
-                                "how": "cargo check -p vx-replay-dflt --bin %s (the real derive, built from /repo's working tree)" % case, "cases_tried": 1}
+                r["witness"] = {"case": {"derive_attribute": attr.group(1) if attr else "", "source": "replay-exec/%s/src/bin/%s.rs" % (sub, case)}, "observed": r["detail"], "bounded": True,
+                                "how": "cargo check -p %s --bin %s (the real derive, built from /repo's working tree)" % (pkg, case), "cases_tried": 1}
         out.append(r)
     return out
 
@@ -305,7 +305,7 @@ def extra_checks_inner(pid, tier):
             return c08_frame()
         if pid == "C02":
             import vxcompile
-            return c02_defaults() + vxcompile.c02_compile(tier)
+            return c02_defaults() + vxcompile.c02_compile(tier) + compile_probes("C02", ["c02_serdeless_derive"], "vx-replay-serdeless", "serdeless")
         if pid == "C12":
             import vxcompile
             return vxcompile.c12_compile(tier) + vxcompile.c12_mutual(tier)
